@@ -278,6 +278,12 @@ def check_detection(spec: dict) -> dict:
                 if admitted:
                     nontrivial = True
                     classes.append("extender_admitted")
+                # an admitted gene was reached from an anchor or another admitted gene no further away than the cutoff
+                inside_legit = [g for g in legit if ring.contains(proto["core"], genes[g]["loc"])]
+                for gene in admitted:
+                    if not any(other != gene and dist(gene, other) <= cutoff for other in inside_legit):
+                        raise Violation("extender_overreach", {"rule": name, "core": proto["core"], "gene": gene,
+                                                               "cutoff": cutoff})
                 if clean_layout:
                     for gene in legit:
                         if ring.contains(proto["core"], genes[gene]["loc"]):
